@@ -22,9 +22,9 @@ OPS = ["predict", "deep_lift_shap", "saturation_mutagenesis", "marginalize",
 
 BAD_INPUTS = {
 	"deep_lift_shap": ["ncol", "target_oob", "args_badlen", "ref_badshape_n",
-		"ref_badshape_L", "channels", "cuda", "int_dtype", "refgen_badshape"],
-	"predict": ["args_badlen", "channels", "cuda"],
-	"saturation_mutagenesis": ["channels", "cuda", "args_badlen"],
+		"ref_badshape_L", "channels", "cuda", "int_dtype", "refgen_badshape", "empty_X"],
+	"predict": ["args_badlen", "channels", "cuda", "empty_X"],
+	"saturation_mutagenesis": ["channels", "cuda", "args_badlen", "empty_X"],
 	"marginalize": ["channels", "motif_too_long", "cuda"],
 	"ablate": ["channels", "end_oob", "cuda"],
 	"space": ["channels", "spacing_badshape"],
@@ -185,6 +185,9 @@ def run_op(model, mspec, op, bad=None):
 		X = torch.cat([X, torch.zeros(n, 1, L, dtype=dt)], dim=1)
 	if bad == "int_dtype":
 		X = X.to(torch.int8)
+	if bad == "empty_X":
+		X = X[:0]
+		n = 0
 	args = None
 	if mspec.get("n_args", 0):
 		na = n - 1 if bad == "args_badlen" else n
@@ -288,7 +291,9 @@ def run_op(model, mspec, op, bad=None):
 			from tangermeme.design import greedy_substitution
 			motifs = [_motif_str(op["motif_seed"], 2), _motif_str(op["motif_seed"] + 1, 3)]
 			ytarget = torch.full((1, mspec["n_targets"]), 1.5, dtype=dt)
-			y = greedy_substitution(model, X[:1], motifs, ytarget, max_iter=op["max_iter"],
+			loss = _wrap("loss", torch.nn.MSELoss(reduction="none"))
+			y = greedy_substitution(model, X[:1], motifs, ytarget, loss=loss,
+				max_iter=op["max_iter"],
 				batch_size=op["batch_size"], device="cpu")
 		else:
 			raise ValueError(name)
